@@ -569,6 +569,8 @@ pub fn run(tier: Tier, replay: Option<String>) -> i32 {
         }
     }
     e3::run_jobs_into(&mut ck, jobs, false);
+    ck.cov("d_actions_that_delivered_a_chunk", world::FORCED_DELIVERIES.load(std::sync::atomic::Ordering::Relaxed));
+    ck.cov("d_actions_and_final_drains_with_nothing_left", world::FORCED_DELIVERIES_WITH_NOTHING_TO_DELIVER.load(std::sync::atomic::Ordering::Relaxed));
     let ex = ck.coverage.get("e3_executions").and_then(|v| v.as_u64()).unwrap_or(0);
     ck.cov("states", n);
     ck.cov("transitions", ex);
